@@ -6,5 +6,7 @@ export GOFLAGS=-mod=mod GOPROXY=off GOSUMDB=off GOTOOLCHAIN=local
 mkdir -p bin evidence replays .work
 go build -tags verif -o bin/vcheck ./cmd/vcheck
 go build -race -tags verif -o bin/vcheck-race ./cmd/vcheck
+GOARCH=386 go build -tags verif -o bin/vcheck386 ./cmd/vcheck   # warms the 32-bit standard library in the build cache
+( cd /repo && go build -race -o /verif/bin/rddetector-race ./tools/rddetector && go build -race -o /verif/bin/rdgen-race ./tools/rdgen )
 ( cd /repo && go build -o /verif/bin/rddetector ./tools/rddetector && go build -o /verif/bin/rdgen ./tools/rdgen )
 echo "setup ok"
